@@ -4,7 +4,7 @@ from __future__ import annotations
 
 import copy
 
-from .core import outcome, octs, after_pack, rxbuf, decoded, scramble, owned, enum_arg
+from .core import outcome, octs, after_pack, rxbuf, decoded, scramble, owned, enum_arg, assign_grown, side_pack
 from .probe import fresh
 from .probe import decode_other, poison, twin
 
@@ -50,6 +50,20 @@ def empty_arg(lst, *key):
     if lst:
         return lst
     return None if zlib.crc32(repr(key).encode()) % 2 else []
+
+
+def reuse_conf(conf):
+    """The caller goes on using ITS configuration object for the next transaction: flags flipped, sequence number advanced
+    in place. What an object built from it packs afterwards must still be what that object's own getters report."""
+    from spacepackets.cfdp.defs import CrcFlag, LargeFileFlag
+    try:
+        conf.crc_flag = CrcFlag(1 - int(conf.crc_flag))
+        conf.file_flag = LargeFileFlag(1 - int(conf.file_flag))
+        s = conf.transaction_seq_num
+        if s.byte_len:
+            s.value = (s.value + 1) % (1 << (8 * s.byte_len))
+    except Exception:  # noqa
+        pass
 
 
 def mk_cfg(c, inplace=False):
@@ -211,7 +225,7 @@ def mk_pdu_via_setters(kind, cfg, p):
         obj.segment_requests = [(_i(s), _i(e)) for s, e in p["segs"]]
     if kind == "filedata":
         from spacepackets.cfdp.pdu.file_data import SegmentMetadata, RecordContinuationState
-        obj.file_data = bytes(p["data"])
+        assign_grown(obj, "file_data", p["data"])
         obj.segment_metadata = (SegmentMetadata(RecordContinuationState(p["meta"][0]["state"]), bytes(p["meta"][0]["md"]))
                                 if p["meta"] else None)
     # the caller's objects were legitimately written through by the setters: compare from here on
@@ -326,9 +340,12 @@ def op_cfdphdr_rt(a):
         def rest():
             d = fresh(lambda: PduHeader.unpack(rxbuf(raw, a["sfx"])))
             decode_other("cfdphdr", PduHeader.unpack)
-            return {"octets": octs(raw), "hlen": o.header_len, "plen": o.packet_len, "cfglen": cfglen,
-                    "rawlen": AbstractPduBase.header_len_from_raw(bytes(raw)), "dec": proj_hdr(d), "dhlen": d.header_len,
-                    "repack": octs(d.pack())}
+            out = {"octets": octs(raw), "hlen": o.header_len, "plen": o.packet_len, "cfglen": cfglen,
+                   "rawlen": AbstractPduBase.header_len_from_raw(bytes(raw)), "dec": proj_hdr(d), "dhlen": d.header_len,
+                   "repack": octs(d.pack())}
+            reuse_conf(conf)
+            side_pack("cfdphdr", proj_hdr, o)
+            return out
         return after_pack(raw, rest)
     return outcome(run)
 
@@ -548,9 +565,12 @@ def op_pdu_rt(a):
         d = fresh(lambda: pdu_class(a["kind"]).unpack(rxbuf(raw, a["sfx"])))
         decode_other("pdu:" + a["kind"], pdu_class(a["kind"]).unpack)
         rebuilt = outcome(lambda: octs(rebuild_pdu(a["kind"], d).pack()))
-        return {"octets": octs(raw), "plen": plen, "dflen": dflen, "hlen": hlen, "dec": proj_pdu(d),
+        out = {"octets": octs(raw), "plen": plen, "dflen": dflen, "hlen": hlen, "dec": proj_pdu(d),
                 "dplen": d.packet_len, "ddflen": d.pdu_data_field_len, "eq": pdu_eq(d, obj),
                 "repack": outcome(lambda: octs(d.pack())), "caller": caller, "rebuild": rebuilt}
+        reuse_conf(conf)
+        side_pack("pdu", proj_pdu, obj)
+        return out
     return outcome(run)
 
 
